@@ -10,7 +10,7 @@ EXPLANATION = ('(1) sibling agreement: the progress variants have the same loop 
                'k == total-1 with total the trip count, the reporter leaves its loop when n_finished >= number of channels and counts a chain as finished under stats.n == total; '
                '(5) the two reporter closures (core.rs, nuts.rs) are structurally identical; (6) no dtype-checked TensorData accessor whose element type is not syntactically the '
                'data\'s dtype reaches unwrap/expect. Termination under every interleaving is a liveness property and is NOT decided (the obligations in 4 are necessary, not sufficient).')
-FLOORS = {'obligations': 32}   # counted on the reference tree; fewer instantiated obligations is reported, never passed silently
+FLOORS = {'obligations': 34}   # counted on the reference tree; fewer instantiated obligations is reported, never passed silently
 TECHNIQUE = 'sibling loop-summary agreement, result-discipline and typestate (TensorData dtype) analysis, structural equivalence of the reporter closures'
 SEND = 'std::sync::mpsc::Sender::send'
 
@@ -250,6 +250,7 @@ def stats_from_returned(ctx, nc, nd):
         ok = ret[0] == 'tuple' and len(ret[1]) == 2 and len(st) == 1 and st[0].args[0] is ret[1][0] and ret[1][1] is st[0].res
         ctx.check('C10.stats_from_returned.core', A, 'stats', ok, expected='(sample, RunStats::from(sample.view()))', found=show(ret)[:300], sp=b['sp'],
                   why='diagnostics must equal those computed from the returned draws')
+        collect_rule(ctx, 'C10.collect.core', A, ev, ret, b, 'core::run_chain_progress', 'chains_mut(self)', lambda R: T.app('stack', AX(0), R))
         # per-chain results in chain order, workers get (chain_c, tx_c)
         workers = ev.events(lambda e: e.key == 'core::run_chain_progress')
         okw = len(workers) == 1 and workers[0].args[1] is nc and workers[0].args[2] is nd
@@ -269,10 +270,40 @@ def stats_from_returned(ctx, nc, nd):
             ok = ret[1][1] is st[0].res and (arg is smp or arg is T.app('from_shape', T.app('dims', smp), smp))
         ctx.check('C10.stats_from_returned.nuts', A, 'stats', ok, expected='(sample, RunStats::from(view of sample))', found=show(ret)[:300], sp=b['sp'],
                   why='diagnostics must equal those computed from the returned draws')
+        collect_rule(ctx, 'C10.collect.nuts', A, ev, ret, b, crp, 'self.chains', lambda R: T.app('stack_t', R, N(0)))
         workers = ev.events(lambda e: e.key == crp)
         okw = len(workers) == 1 and workers[0].args[1] is nc and workers[0].args[2] is nd
         ctx.check('C10.fwd.nuts', A, 'fwd', okw, expected='chain.run_progress(n_collect, n_discard, tx)', found='; '.join(show(a) for e in workers for a in e.args[1:3]), sp=b['sp'],
                   why='arguments forwarded in order')
+
+
+def collect_rule(ctx, oid, A, ev, ret, b, workerkey, chains_name, stackf):
+    """the returned sample is the stack (chain axis 0) of one worker result per chain, in chain order; one channel per chain,
+    sender c handed to chain c, receivers kept in the same order"""
+    forced = [ls for ls in ev.vf.loops if ls.kind == 'forced' and not ls.ctx and any(e.key == workerkey for e in ls.events)]
+    chan = [ls for ls in ev.vf.loops if ls.kind == 'for' and not ls.ctx and any(e.op == 'channel' for e in ls.events)]
+    ok = False
+    found = show(ret[1][0])[:300] if ret[0] == 'tuple' else show(ret)[:300]
+    if len(forced) == 1 and len(chan) == 1 and ret[0] == 'tuple':
+        fl, cl = forced[0], chan[0]
+        ck = [k for k in fl.lh if keyrepr(k) == chains_name]
+        ch = [e for e in cl.events if e.op == 'channel']
+        if len(ck) == 1 and len(ch) == 1:
+            chains0 = fl.init[ck[0]]
+            nchains = seq_len(chains0)
+            c = ch[0].res
+            pushes = {keyrepr(k): cl.next[k] for k in cl.lh}
+            txk = [k for k in cl.lh if cl.next[k] is T.app('push', cl.lh[k], T.app('tx', c))]
+            rxk = [k for k in cl.lh if cl.next[k] is T.app('push', cl.lh[k], T.app('rx', c))]
+            w = [e for e in fl.events if e.key == workerkey]
+            okchan = cl.n is nchains and not cl.exits and len(txk) == 1 and len(rxk) == 1 and cl.init[txk[0]] is T.app('array') and cl.init[rxk[0]] is T.app('array')
+            okwork = len(w) == 1 and fl.n is nchains and w[0].args[0] is index_term(fl.lh[ck[0]], fl.var) and w[0].args[3] is T.app('tx', c) and not w[0].pc \
+                and fl.next[ck[0]] is T.app('upd', fl.lh[ck[0]], fl.var, T.app('post0', w[0].res))
+            R = T.app('eff', mk_comp(fl.n, fl.var, w[0].res), S('loop%d' % fl.uid)) if w else None
+            ok = okchan and okwork and R is not None and ret[1][0] is stackf(R)
+            found = 'channels: n=%s ok=%s; workers: n=%s ok=%s; sample=%s' % (show(cl.n), okchan, show(fl.n), okwork, found)
+    ctx.check(oid, A, 'collect', ok, expected='one channel per chain (n = number of chains); worker c runs chain c in place with sender c; results stacked on the chain axis in chain order', found=found, sp=b['sp'],
+              why='run_progress returns a [n_chains, n_collect, dim] array whose row c belongs to chain c (as run does); a missing channel silently drops a chain')
 
 
 def dtype(ctx):
